@@ -506,6 +506,7 @@ type parentState struct {
 	sums        []workerSummary
 	fatals      int
 	unconfirmed int
+	abandoned   int // shards given up after a dozen fatal exits
 	machineErr  []string
 }
 
@@ -580,7 +581,14 @@ func runParent(c *Check, tier string, seed int64) int {
 			go func(wi int) {
 				defer wg.Done()
 				startAfter := int64(-1)
-				for attempt := 0; attempt < 200; attempt++ {
+				for attempt := 0; ; attempt++ {
+					if attempt >= 12 {
+						// a dozen fatal exits in one shard: the verdict is settled, the rest of the shard is not explored
+						st.mu.Lock()
+						st.abandoned++
+						st.mu.Unlock()
+						return
+					}
 					done, last, why := superviseWorker(c, self, tier, seed, wi, wn, startAfter, st, ph)
 					if done {
 						return
@@ -596,6 +604,19 @@ func runParent(c *Check, tier string, seed int64) int {
 						return
 					}
 					raw := findCase(c, tier, seed, last)
+					// a fatal exit counts only if the same case dies again ALONE in a fresh process (an overloaded machine
+					// can kill an innocent case: accumulated garbage, a stalled scheduler)
+					if ok, vs := confirmAlone(c, self, tier, seed, last, ph); ok {
+						fmt.Fprintf(os.Stderr, "worker %d died on case #%d (%s) but the case completes alone: not counted\n", wi, last, why)
+						st.mu.Lock()
+						st.unconfirmed++
+						for _, v := range vs {
+							st.viol[v.Signature] = append(st.viol[v.Signature], v)
+						}
+						st.mu.Unlock()
+						startAfter = last
+						continue
+					}
 					fmt.Fprintf(os.Stderr, "worker %d died on case #%d (%s): %s\n", wi, last, why, trunc(string(raw), 300))
 					v := Violation{Signature: why, What: fmt.Sprintf("worker process died while running case #%d: %s", last, why), Case: raw}
 					st.mu.Lock()
@@ -754,7 +775,7 @@ func finish(c *Check, tier string, seed int64, st *parentState, wall time.Durati
 	known := loadKnown(c.ID)
 	total := workerSummary{Stats: map[string]int64{}, Strata: map[string]int64{}}
 	outcomes := map[string]bool{}
-	doneAll := len(st.sums) > 0
+	doneAll := len(st.sums) > 0 && st.abandoned == 0
 	for _, s := range st.sums {
 		total.Evaluations += s.Evaluations
 		total.Nontrivial += s.Nontrivial
